@@ -47,18 +47,93 @@ Section Commands.
     | g :: _ => filter (fun p => match get_hist C t p with Some _ => false | None => true end) (map fst (g_refs g))
     end.
 
-  Definition create_folder (t : node) (req : list fmt) (no_dh : bool) (ipats ifile : list text) : node * obs :=
+  (* ---- rename detection (create -dr) -------------------------------------------------------------------- *)
+  (* new_paths: a visited entry is "new" when some generation of the ROOT history has no record under its path
+     (for ... else over the generations, as the code is written) *)
+  Definition new_paths (hs : list lhist) (evs : list ev) : list path :=
+    filter (fun p => existsb (fun g => negb (existsb (fun r => path_eqb (r_path r) p) (g_records g))) (lh_gens (root_hist hs)))
+           (visited evs).
+  (* the record the session holds for a path: first history (insertion order) whose new list has one *)
+  Fixpoint sess_find (s : session) (p : path) : option (path * record) :=
+    match s with
+    | [] => None
+    | (hroot, nl) :: s' =>
+        let here := if is_prefix hroot p
+                    then match strip_prefix hroot p with
+                         | [] => nl_root nl
+                         | rel => find (fun r => path_eqb (r_path r) rel) (nl_records nl)
+                         end
+                    else None in
+        match here with Some r => Some (hroot, r) | None => sess_find s' p end
+    end.
+  Definition set_prev (r : record) (prev : path) : record := mkRecord (r_path r) (r_dir r) (r_size r) (r_entries r) (Some prev).
+  Definition nl_set_prev (nl : newlist) (rel prev : path) : newlist :=
+    match rel with
+    | [] => mkNewlist (nl_records nl) (option_map (fun r => set_prev r prev) (nl_root nl))
+    | _ => mkNewlist (map (fun r => if path_eqb (r_path r) rel then set_prev r prev else r) (nl_records nl)) (nl_root nl)
+    end.
+  Fixpoint sess_set_prev (s : session) (h rel prev : path) : session :=
+    match s with
+    | [] => []
+    | (k, nl) :: s' => if path_eqb k h then (k, nl_set_prev nl rel prev) :: s' else (k, nl) :: sess_set_prev s' h rel prev
+    end.
+  Definition parent_of (hs : list lhist) (hroot : path) : option path :=
+    match find (fun h => path_eqb (lh_root h) hroot) hs with Some h => lh_parent h | None => None end.
+
+  Record dr_state := mkDR { dr_sess : session; dr_found : list path; dr_abort : bool }.
+  Definition dr_step (hs : list lhist) (t : node) (np : path) (st : dr_state) (nf : path) : dr_state :=
+    if dr_abort st then st else
+    let hnf := route hs (root_hist hs) nf in
+    let relnf := strip_prefix (lh_root hnf) nf in
+    match find_first_any (lh_gens hnf) relnf with
+    | None => mkDR (dr_sess st) (dr_found st) true                                  (* AttributeError on None *)
+    | Some nfe =>
+        match sess_find (dr_sess st) np with
+        | None => mkDR (dr_sess st) (dr_found st) true
+        | Some (hr, r) =>
+            match find (fun e => fmt_eqb (e_fmt e) (e_fmt nfe)) (r_entries r) with
+            | Some e =>
+                if text_eqb (e_digest e) (e_digest nfe) then
+                  let s' := match r_path r with
+                            | [] => match parent_of hs hr with
+                                    | Some par => sess_set_prev (dr_sess st) par (strip_prefix par np) relnf
+                                    | None => dr_sess st
+                                    end
+                            | rel => sess_set_prev (dr_sess st) hr rel relnf
+                            end in
+                  mkDR s' (nf :: dr_found st) false
+                else st
+            | None =>
+                match get C t np with
+                | Some (File c) =>
+                    if text_eqb (digest_text Hb (e_fmt nfe) c) (e_digest nfe)
+                    then mkDR (sess_set_prev (dr_sess st) hr (r_path r) relnf) (nf :: dr_found st) false
+                    else st
+                | _ => st                                                            (* a new folder: skipped *)
+                end
+            end
+        end
+    end.
+  Definition detect_renames (hs : list lhist) (t : node) (sess : session) (newp nfp : list path) : dr_state :=
+    fold_left (fun st np => fold_left (dr_step hs t np) nfp st) newp (mkDR sess [] false).
+
+  Definition create_folder (t : node) (req : list fmt) (no_dh dr : bool) (ipats ifile : list text) : node * obs :=
     match load t with
     | inr e => (t, obs_exit (load_err_code e))
     | inl hs =>
         let spec := set_patterns (latest_patterns (lh_gens (root_hist hs))) ipats (pattern_file_lines ifile) in
         let fmts := sort_fmts req in
         let evs := events matches C spec [] t in
-        let '(sess, fails) := fold_left (process_event hs fmts no_dh spec t) evs ([], 0) in
+        let '(sess0, fails) := fold_left (process_event hs fmts no_dh spec t) evs ([], 0) in
+        let nf_raw := diff_paths (expected_paths hs) (visited evs) in
+        let drs := if dr then detect_renames hs t sess0 (sorted_paths (new_paths hs evs)) (sorted_paths nf_raw)
+                   else mkDR sess0 [] false in
+        let sess := dr_sess drs in
         let cs := commit C cdig ser hs InPlace t sess spec in
-        let miss := sorted_paths (missing matches spec (diff_paths (expected_paths hs) (visited evs))) in
+        let miss := sorted_paths (missing matches spec (diff_paths nf_raw (dr_found drs))) in
+        let aborted := cs_abort C cs || dr_abort drs in
         let out :=
-          if cs_abort C cs then Abort
+          if aborted then Abort
           else if Nat.ltb 0 fails then Exit exit_verification_failed
           else match miss with
                | _ :: _ => Exit exit_completeness
@@ -67,7 +142,8 @@ Section Commands.
                        | [] => Exit 0
                        end
                end in
-        (cs_tree C cs, mkObs out (cs_written C cs) (if cs_abort C cs then [] else miss) [] [] (cs_ops C cs) [] [])
+        (if dr_abort drs then t else cs_tree C cs,
+         mkObs out (if dr_abort drs then [] else cs_written C cs) (if aborted then [] else miss) [] [] (if dr_abort drs then [] else cs_ops C cs) [] [])
     end.
 
   (* ---- create -sf --------------------------------------------------------------------------------------- *)
